@@ -3,6 +3,7 @@
 
 pub mod attrmodel;
 pub mod cfgmodel;
+pub mod doc;
 pub mod engine;
 pub mod evgen;
 pub mod gen;
